@@ -7,7 +7,7 @@ from .common import Run, corpus_cases, generic_replay, all_flags
 PROP = "C13"
 MODULE = "PLS.Props.C13"
 THEOREMS = ["PLS.C13_tables", "PLS.C13_discovered_iff", "PLS.C13_relocation", "PLS.C13_skip_below_root",
-            "PLS.C13_phase2_is_fold", "PLS.C13_unreadable_isolated", "PLS.C13_name_patterns",
+            "PLS.C13_phase2_is_fold", "PLS.C13_unreadable_isolated", "PLS.C13_skip_iff", "PLS.C13_name_patterns",
             "PLS.C13_site_packages_relocation"]
 RULE = ("generated directory trees (file names on and near the patterns conftest.py / test_*.py / *_test.py, ignored "
         "directory names at every depth, *.egg-info, nested packages, modules pulled in by star imports / "
